@@ -61,12 +61,30 @@ POINTS = {"create": ["create.afterNextId", "create.afterRecord", "create.afterMe
           "rename": ["rename.afterMove", "rename.afterOldMeta", "rename.afterNewMeta"]}
 
 
+SPECIAL = ["s+e", "s e", "s%2Be"]   # names that URL decoding changes, and what a second decoding makes of them
+
+
 def ncode(n):
     if n == CORE:
         return 0
     if n in NAMES:
         return NAMES.index(n) + 1
+    if n in SPECIAL:
+        return SPECIAL.index(n) + 5
     return 9
+
+
+def seg_of(n):
+    """the path segment a client sends for dataset name n: canonical escaped form ('+' and unreserved characters literal)"""
+    import urllib.parse
+    return urllib.parse.quote(n, safe="+")
+
+
+def http(method, n, to=None):
+    o = {"op": "http", "method": method, "seg": seg_of(n)}
+    if to is not None:
+        o["to"] = to
+    return o
 
 
 # ---------------------------------------------------------------- cases
@@ -170,7 +188,59 @@ def corpus_cases():
                + [{"op": "gc"}, {"op": "stale", "slot": "h1", "ents": [E("e1", "a", {"r1": "e3"}), E("e4", "a", {"r1": "e1"})]},
                   {"op": "stale", "slot": "h2", "ents": [E("e2", "b")]}] + rd(["e1", "e3", "e4"], ["a", "b"])
                + [{"op": "restart"}] + rd(["e1", "e3", "e4"], ["a", "b"]) + [{"op": "stale", "slot": "h1", "ents": [E("e2")]}, {"op": "gc"}]})
+    # r3-2: a rename held at its wait for the dataset-manager lock while another client creates the target name and writes to it
+    cs.append({"ops": [{"op": "create", "ds": "a"}, {"op": "create", "ds": "b"},
+                       {"op": "batch", "ds": "a", "ents": [E("e1", "a", {"r1": "e2"}), E("e2")]},
+                       {"op": "race", "ds": "a", "to": "c", "ents": [E("e1", "c", {"r2": "e3"}), E("e3")]}] + rd(["e1", "e3"], ["a", "b", "c"])
+               + [{"op": "restart"}] + rd(["e1", "e3"], ["a", "c"]) + [{"op": "gc"}]})
+    # r3-3: dataset management over HTTP with names that URL decoding changes, siblings named like the decoded forms
+    sp = lambda: [o for n in SPECIAL for o in ({"op": "changes", "ds": n, "since": 0, "limit": 0}, {"op": "entities", "ds": n})] + [
+        {"op": "names"}, {"op": "metas"}, {"op": "get", "id": U("e1"), "datasets": []}]
+    cs.append({"ops": [http("POST", "s+e"), {"op": "create", "ds": "s e"}, http("POST", "s%2Be"), http("POST", "s+e"),
+                       {"op": "batch", "ds": "s+e", "ents": [E("e1", "a")]}, {"op": "batch", "ds": "s e", "ents": [E("e1", "b")]},
+                       {"op": "batch", "ds": "s%2Be", "ents": [E("e1", "c")]}] + sp()
+               + [http("DELETE", "s+e")] + sp() + [http("DELETE", "s%2Be")] + sp()
+               + [http("PATCH", "s e", "s+e")] + sp() + [http("DELETE", "s e"), http("DELETE", "s+e"), http("DELETE", CORE)] + sp() + [{"op": "gc"}]})
     return cs
+
+
+def gen_http_case(rng, nops):
+    """dataset management through the HTTP handlers over names that URL decoding changes ('+', space, a literal %2B) next to
+    plain names; the same entity ids are written to all of them so that a request addressing the wrong sibling shows"""
+    pool = SPECIAL + ["a"]
+    ops = []
+    for n in pool:
+        if rng.chance(3, 4):
+            ops.append(http("POST", n) if rng.chance(1, 2) else {"op": "create", "ds": n})
+    for _ in range(nops):
+        r = rng.below(100)
+        n = rng.choice(pool)
+        if r < 30:
+            ids = list(IDS)
+            rng.shuffle(ids)
+            ops.append({"op": "batch", "ds": n, "ents": [E(i, rng.choice(["a", "b", "c"])) for i in ids[:rng.choice([1, 2])]]})
+        elif r < 50:
+            ops.append(http("DELETE", n if rng.chance(7, 8) else rng.choice([CORE, "zz"])))
+        elif r < 62:
+            ops.append(http("POST", n))
+        elif r < 72:
+            ops.append(http("PATCH", n, rng.choice(pool)))
+        elif r < 78:
+            ops.append({"op": "delete", "ds": n})
+        elif r < 84:
+            ops.append({"op": "restart"})
+        elif r < 88:
+            ops.append({"op": "gc"})
+        else:
+            ops += [{"op": "names"}, {"op": "changes", "ds": rng.choice(pool), "since": 0, "limit": 0},
+                    {"op": "get", "id": U(rng.choice(IDS)), "datasets": [] if rng.chance(1, 2) else [rng.choice(pool)]}]
+    ops.append({"op": "gc"})
+    ops += [{"op": "names"}, {"op": "metas"}]
+    for n in pool:
+        ops += [{"op": "changes", "ds": n, "since": 0, "limit": 0}, {"op": "entities", "ds": n}]
+    for i in IDS[:2]:
+        ops += [{"op": "get", "id": U(i), "datasets": []}, {"op": "get", "id": U(i), "datasets": [rng.choice(pool)]}]
+    return {"ops": ops}
 
 
 def gen_ent(rng, i, known):
@@ -218,6 +288,12 @@ class Sim:
     def rename(self, o, n):
         if o != CORE and o in self.names and n != o and n not in self.names:
             self.names[n] = self.names.pop(o)
+
+    def race(self, o, n, ents):
+        """rename o -> n held at its lock wait while another client creates n and writes to it: = create, write, rename"""
+        self.create(n)
+        self.write(n, ents)
+        self.rename(o, n)
 
     def crash(self, c):
         k = POINTS[c["mop"]].index(c["point"]) + 1
@@ -341,13 +417,23 @@ def gen_case(rng, nops, crashy):
             sim.create(n)
         elif r < 62:
             n = rng.choice(NAMES[:3] + ([CORE, "zz"] if rng.chance(1, 6) else []))
-            ops.append({"op": "delete", "ds": n})
+            ops.append(http("DELETE", n) if rng.chance(1, 4) else {"op": "delete", "ds": n})
             sim.delete(n)
         elif r < 72:
             o = rng.choice(NAMES + ([CORE] if rng.chance(1, 8) else []))
             n = rng.choice(NAMES + ([CORE] if rng.chance(1, 10) else []))
-            ops.append({"op": "rename", "ds": o, "to": n})
-            sim.rename(o, n)
+            if o != CORE and n != CORE and rng.chance(1, 3):
+                ids = list(IDS)
+                rng.shuffle(ids)
+                ents = [gen_ent(rng, i, known) for i in ids[:rng.choice([1, 2])]]
+                ops.append({"op": "race", "ds": o, "to": n, "ents": ents})
+                sim.race(o, n, ents)
+            elif rng.chance(1, 4):
+                ops.append(http("PATCH", o, n))
+                sim.rename(o, n)
+            else:
+                ops.append({"op": "rename", "ds": o, "to": n})
+                sim.rename(o, n)
         elif r < 80:
             ops.append({"op": "gc"})
         elif r < 86:
@@ -376,7 +462,8 @@ def gen_case(rng, nops, crashy):
 
 def gen(rng, tier):
     n = {"quick": 140, "thorough": 1500, "search": 250}[tier]
-    return [gen_case(rng, rng.range(5, 12 if tier == "quick" else 18), i % 3 != 0) for i in range(n)]
+    return [gen_http_case(rng, rng.range(6, 14)) if i % 6 == 5 else
+            gen_case(rng, rng.range(5, 12 if tier == "quick" else 18), i % 3 != 0) for i in range(n)]
 
 
 # ---------------------------------------------------------------- terms
@@ -462,6 +549,22 @@ def term(c, o):
             shared = k == "names" and (len(set(ids)) != len(ids) or -1 in ids)
             a = "OOther" if (oo.get("err") or bad or shared) else "(ONames %s)" % zl(sorted(ncode(n) for n in oo.get("names") or []))
             terms.append("CQuery %s %s" % (q, a))
+        elif k == "http":
+            st = oo.get("status", 0)
+            oc = 2 if bad else 0 if st == 200 else 1 if 400 <= st < 600 else 7
+            meth = {"DELETE": 0, "POST": 1, "PATCH": 2}[op["method"]]
+            terms.append("CHttp %d %s %d %d" % (meth, zl(list(op["seg"].encode())), ncode(op.get("to", "")) if meth == 2 else 0, oc))
+        elif k == "race":
+            # observationally: the other client's create and write, then the rename (refused iff the target exists when it takes effect)
+            if oo.get("hit"):
+                sub = oo.get("sub") or [{}, {}]
+                so = sub[0]
+                terms.append("CMop %s %d" % (mop_term("create", op["to"]), 2 if so.get("panic") else 1 if so.get("err") else 0))
+                so = sub[1] if len(sub) > 1 else {"err": "missing"}
+                lens = so.get("lens") or [0] * len(op["ents"])
+                ents = vlib.coq_list([sc.ent_term(CODES, e, l) for e, l in zip(op["ents"], lens)])
+                terms.append("CWrite %d %s %d" % (ncode(op["to"]), ents, 7 if so.get("panic") else (1 if so.get("err") == "no dataset" else 7 if so.get("err") else 0)))
+            terms.append("CMop %s %d" % (mop_term("rename", op["ds"], op["to"]), 2 if bad else 1 if oo.get("err") else 0))
         elif k == "hold":
             oc = 7 if bad else (1 if oo.get("err") == "no dataset" else 7 if oo.get("err") else 0)
             terms.append("CHold %d %d %d" % (SLOTS[op["slot"]], ncode(op["ds"]), oc))
